@@ -127,7 +127,10 @@ def rule_pure(ctx: Ctx) -> None:
         tracked = set()
         for i, p in enumerate(fn.params):
             ann = ast.unparse(p.annotation) if p.annotation is not None else ""
-            if (i == 0 and fn.cls is not None and not fn.is_static and p.arg == "self") or "Resources" in ann or "dict" in ann or "list" in ann:
+            # `self` is an operand in the methods of Resources; in a private helper class of the module (an accumulator the combinator
+            # builds and throws away) `self` is that scratch object, and writing to it changes no operand
+            own_self = i == 0 and fn.cls is not None and not fn.is_static and p.arg == "self" and not (fn.cls.name.startswith("_") and fn.cls.name != "Resources")
+            if own_self or "Resources" in ann or "dict" in ann or "list" in ann:
                 tracked.add(p.arg)
         if not tracked:
             continue
@@ -323,7 +326,10 @@ def rule_covers(ctx: Ctx) -> None:  # noqa: C901
         stores = [s for s in ast.walk(lp["node"]) if isinstance(s, ast.Assign) and any(isinstance(t, ast.Subscript) and isinstance(t.slice, ast.Constant) and t.slice.value == q for t in s.targets)]
         reads_operand = any(isinstance(a, ast.Attribute) and a.attr == q and norm(a.value) == var for a in ast.walk(lp["node"]))
         if not stores and not reads_operand and q not in loop_consts:
-            ctx.add("3-covers", fn, lp["node"], False, f"combine_max has no merge arm for `{q}`: the operands' `{q}` never reaches the result", key=f"arm {q}")
+            # the loop may hand the operand to a helper / an accumulator object that does the merging
+            delegates = any(isinstance(c, ast.Call) and any(isinstance(a, ast.Name) and a.id == var for a in [*c.args, *[k.value for k in c.keywords]]) for c in ast.walk(lp["node"]))
+            ctx.add("3-covers", fn, lp["node"], None if delegates else False, f"UNDECIDED: the merge of `{q}` is delegated (the loop hands `{var}` to a call); the arm is not followed there" if delegates else
+                    f"combine_max has no merge arm for `{q}`: the operands' `{q}` never reaches the result", key=f"arm {q}")
             continue
         ctx.tri("3-covers", fn, stores[0] if stores else lp["node"], bool(stores) and reads_operand, False,
                 f"`{q}`: the operand's value can be stored into the accumulator", "", f"`{q}` is handled in a form this rule does not follow (table-driven?)", key=f"arm {q}")
